@@ -40,7 +40,7 @@ LEVEL_NOTE = "Trusted: the Fraction model (equal slots by position in creation o
 MINIMIZE = None
 RULE = (
     "one run = N in 1..8 runners x cycle in {0.1, 0.5, 1, 5, 7.3} min x margin in {0, small, slot/2, slot, 2*slot} x epoch offset in "
-    "{1e6, 1.7e9, 4.1e9}; instants = 3 cycles x (grid + 6N boundary neighbours); non-trivial = N >= 2; distinct = hash of the configuration."
+    "{1e6, 1.7e9, 4.1e9} x optional execution history per runner (durations around slot - margin, a slot, 1.7 slots); instants = 3 cycles x (grid + 6N boundary neighbours); non-trivial = N >= 2; distinct = hash of the configuration."
 )
 ASSUMPTIONS = [
     "stable membership (the property's premise): all runners heart-beat at every probed instant, the liveness timeout is never reached",
